@@ -124,7 +124,12 @@ def applyOp (A : AOps R) (op : POp) (args : List (Tensor R)) : Option (Tensor R)
   | .log, [t] => do some { t with data := ← t.data.mapM A.log }
   | .square, [t] => some <| t.map fun x => A.mul x x
   | .softplus, [t] => do
-      some { t with data := ← t.data.mapM fun x => do A.log (A.add A.one (← A.exp x)) }
+      -- log (1 + exp x), computed as x + log (1 + exp (-x)) for x ≥ 0 (the same number; no overflow
+      -- of `exp` in floating point for large x)
+      some { t with data := ← t.data.mapM fun x => do
+        match A.le A.zero x with
+        | some true => pure (A.add x (← A.log (A.add A.one (← A.exp (A.neg x)))))
+        | _ => A.log (A.add A.one (← A.exp x)) }
   | .sigmoid, [t] => do
       some { t with data := ← t.data.mapM fun x => do A.inv (A.add A.one (← A.exp (A.neg x))) }
   | .scaledSigmoid vmin vmax, [t] => do
